@@ -22,7 +22,7 @@ import copy
 from . import render_common as rc
 from .core import MachineryError
 
-NEED = ("ExecMark", "ExecCall", "ExecCapture", "ExecCallContent", "ExecCallerBody", "ExecInclude", "ExecFor", "ExecTry",
+NEED = ("ExecMark", "ExecCall", "ExecCapture", "ExecCallContent", "ExecCallerBody", "ExecInclude", "ExecNextBody", "ExecTextFilter", "ExecFor", "ExecTry",
         "ExecWith", "Unwind", "Return", "BreakCont")
 
 
@@ -73,12 +73,15 @@ def handler_variants(p, rng, ids):
                 continue
             suite[i] = dict(k="try", a=[st], h=[dict(k="text", t="h%d" % next(ids)), dict(k="mark", m=next(ids), rl=False, w="s")])
             out.append(q)
-    q = copy.deepcopy(p)
-    q["eh"], q["fe"] = True, False
-    out.append(q)
-    if rng.random() < .3:
+    # the handler's outcome: handles, declines (the original object must propagate), raises something else
+    for mode in ("true", "false", "raise"):
+        if mode == "true" or rng.random() < .6:
+            q = copy.deepcopy(p)
+            q["eh"], q["fe"] = mode, False
+            out.append(q)
+    if rc.XB[p.get("xc", "boom")] and rng.random() < .3:
         q = copy.deepcopy(p)
-        q["eh"], q["fe"] = False, True
+        q["eh"], q["fe"] = "none", True
         out.append(q)
     return out
 
@@ -87,7 +90,8 @@ def check(run):
     thorough = run.thorough
     maxraise = 12 if not thorough else 16
     prof = rc.profile(w=dict(expr=5, callc=4, block=2, inc=3, text=3, mark=5, ret=1, **{"try": 1, "for": 2, "with": 2, "while": 1, "if": 1}),
-                      nincs=(0, 2), depth=3, p_fm=0.8, p_dm=0.8, p_amark=0.5, eh=0.0, fe=0.0, p_bad_args=0.03, p_cmark=0.4)
+                      nincs=(0, 2), depth=3, p_fm=0.8, p_dm=0.8, p_amark=0.5, eh=0.0, fe=0.0, p_bad_args=0.03, p_cmark=0.4,
+                      eh_modes=["true", "false", "raise"], ieh_modes=["true", "true", "false", "raise"], xcs=["boom", "boom", "abort", "sysexit", "kbint", "stopiter"], p_inh=0.25, p_lk=0.3, routes=["context", "context", "unicode", "render"])
     g = rc.Gen(run.rng, prof)
     n_base = 100 if not thorough else 900
     import itertools
@@ -97,7 +101,8 @@ def check(run):
         progs += handler_variants(base, run.rng, itertools.count(5000))
     # random programs with their own % try placement, includes with/without include_error_handler
     prof2 = rc.profile(w=dict(expr=5, callc=4, block=2, inc=3, **{"try": 4, "for": 2, "with": 2}), nincs=(1, 2), depth=3,
-                       eh=0.25, fe=0.1, p_fm=0.8, p_dm=0.8, p_amark=0.5, p_cmark=0.4)
+                       eh=0.35, fe=0.1, p_fm=0.8, p_dm=0.8, p_amark=0.5, p_cmark=0.4,
+                       eh_modes=["true", "false", "raise"], ieh_modes=["true", "true", "false", "raise"], xcs=["boom", "boom", "abort", "sysexit", "kbint", "stopiter"], p_inh=0.25, p_lk=0.3, routes=["context", "context", "unicode", "render"])
     g2 = rc.Gen(run.rng, prof2)
     progs += [g2.gen_prog() for _ in range(180 if not thorough else 1800)]
     run.extra["programs"] = len(progs)
@@ -108,8 +113,9 @@ def check(run):
         if not acts.get(a):
             raise MachineryError("vacuous: action %s of Render.tla never taken (%s)" % (a, acts))
     run.assumptions += [
-        "the planted exception is raised by a context-supplied marker at its k-th invocation; handlers catch exactly that class (% except Boom), error handlers catch everything",
-        "inherited templates and cached sections are not generated here (C06 / C17); include_error_handler is set per included template",
+        "the planted exception (an Exception subclass, a BaseException-only class with a required constructor argument, SystemExit(3), KeyboardInterrupt or StopIteration) is raised by a context-supplied marker at its k-th invocation; % except names exactly that class",
+        "error_handler / include_error_handler (on the Template or on the TemplateLookup) return True, return a false value, or raise a different exception; the caller of render / render_unicode / render_context must receive the very object (identity, args, code/payload)",
+        "inheritance is one base template whose body renders the child through next.body(); named blocks across the chain (C06) and cached sections (C17) are not generated; format_exceptions only with Exception subclasses",
         "format_exceptions: only that an error page naming the exception is produced and the stacks are balanced afterwards",
     ]
     return {"rule": "TLC executes Render.tla for every (program, raise point) with RestoredAtHandler / PartialDiscarded / "
